@@ -447,6 +447,11 @@ func (f *fileDecorator) findDecoration(stopAtNewline, stopAtEmptyLine bool, from
 					return
 				}
 			}
+			if f.crossesFile(from, current) {
+				// When decorating a package the fragments of all files are in one list: the search
+				// must not run from one file into the next (or previous) one.
+				return
+			}
 			return frags, current, true
 		case *newlineFragment:
 			if stopAtNewline {
@@ -477,6 +482,20 @@ func (f *fileDecorator) findDecoration(stopAtNewline, stopAtEmptyLine bool, from
 		}
 	}
 	return
+}
+
+// crossesFile reports whether the decoration point dec is the Start / End of a file other than the
+// one the fragment at index from lies in.
+func (f *fileDecorator) crossesFile(from int, dec *decorationFragment) bool {
+	file, ok := dec.Node.(*ast.File)
+	if !ok || f.Fset == nil || from < 0 || from >= len(f.fragments) {
+		return false
+	}
+	origin := f.fragments[from].Position()
+	if !origin.IsValid() || !file.Pos().IsValid() {
+		return false
+	}
+	return f.Fset.File(origin) != f.Fset.File(file.Pos())
 }
 
 func (f *fileDecorator) findNode(from int, direction int) (node ast.Node, dec *decorationFragment, found bool) {
